@@ -164,5 +164,21 @@ def crun (revoked : Bool) : ConnSt → List CEv → Option ConnSt
     | none => none
     | some c' => crun revoked c' es
 
+/-- Requests a connection task serves when `k` are waiting and its permit is revoked by the handler of the `j`-th
+    (0: before the task starts; none: never): the loop of `Server.cstep`, the permit read at each `loopTop`. -/
+def servedUnder (k : Nat) (j : Option Nat) : Nat → ConnSt → Nat
+  | 0, c => c.responses
+  | f + 1, c =>
+    let rev := match j with | some j => decide (c.responses ≥ j) | none => false
+    match cstep rev c .loopTop with
+    | some c1 =>
+      if c1.st = .closed then c1.responses
+      else if c1.responses < k then
+        match crun rev c1 [.request, .respond] with
+        | some c2 => servedUnder k j f c2
+        | none => c1.responses
+      else c1.responses
+    | none => c.responses
+
 end Server
 end Servlin
